@@ -117,6 +117,9 @@ func (c *EvalCtx) specSort(ty string) (string, types.Type) {
 	case "intset":
 		// a mathematical set of integers (map keys): visitedset, domset(m), emptyset, setadd, setin
 		return "(Array Int Bool)", nil
+	case "realseq":
+		// the contents of a []float64 as a mathematical sequence: content(s), seqat(q, i)
+		return "(Array Int Real)", nil
 	}
 	// Go type name: *T, T, pkg.T
 	t := c.resolveType(ty)
@@ -901,6 +904,27 @@ func (c *EvalCtx) evalCall(e *ECall) Val {
 			b = s.brk
 		}
 		return boolVal("(and (> " + v.S + " 0) (< " + v.S + " " + b + "))")
+	case "content":
+		// content(s): the elements of a []float64, position 0 first, as a value (what is beyond len(s) is unspecified)
+		v := c.eval(e.Args[0])
+		if v.K != KSlice {
+			c.fail("content() needs a slice")
+		}
+		st, ok := v.T.Underlying().(*types.Slice)
+		if !ok || eng.sortOf(st.Elem()) != "Real" || len(eng.leaves(st.Elem())) != 1 {
+			c.fail("content(): only []float64 is supported")
+		}
+		l := eng.leaves(st.Elem())[0]
+		a := eng.heapName(c.p, c.snap(), elemKey(st.Elem(), l.Path), arrSort("Int", arrSort("Int", l.Sort)))
+		row := sel(a, v.S)
+		if v.Off != "" && v.Off != "0" {
+			row = "(lambda ((sq!j Int)) (select " + row + " (+ " + v.Off + " sq!j)))"
+		}
+		return Val{K: KScalar, S: row, Sort: "(Array Int Real)"}
+	case "seqat":
+		q := c.eval(e.Args[0])
+		i := c.eval(e.Args[1])
+		return Val{K: KScalar, T: types.Typ[types.Float64], S: sel(q.S, i.S)}
 	case "setadd":
 		st := c.eval(e.Args[0])
 		k := c.eval(e.Args[1])
